@@ -5,41 +5,74 @@ import sim as simmod
 from machgen import ARN
 
 
+class _ObservedLimit(int):
+    """The size limit as the engine's module constant, observing the comparisons made against it: the engine's
+    size checks read `len(json.dumps(event["data"])) > MAX_DATA_LENGTH` (change_state, handle_terminal_state, the
+    join of a fan-out that ends its scope); for `int > subclass-of-int` Python asks the right operand's `__lt__`
+    first, which reports the measured event data (found as `event` in the calling frame) to `sink` and then
+    answers as an int does.  Nothing about the comparison is changed."""
+
+    def __new__(cls, value, sink):
+        o = int.__new__(cls, value)
+        o.sink = sink
+        return o
+
+    def __lt__(self, other):
+        try:
+            import sys
+            f = sys._getframe(1)
+            ev = f.f_locals.get("event")
+            if isinstance(ev, dict) and "data" in ev and isinstance(other, int):
+                self.sink(ev, other, f.f_code.co_name)
+        except Exception:
+            pass
+        return int.__lt__(self, other)
+
+    __hash__ = int.__hash__
+
+
 @contextlib.contextmanager
 def data_limit(limit=None, refusals=None):
     """Small-limit mode: for the engine run inside the block the size limit of the code under test
-    (`state_engine.MAX_DATA_LENGTH` — the output check of `change_state` — and
-    `task_dispatcher.MAX_DATA_LENGTH` — the check of a worker's reply text) is `limit` characters;
-    both constants are put back afterwards, also when the block raises.  `limit=None` leaves them alone.
-    With a list `refusals`, every transition `change_state` refuses is appended to it as
-    {"state", "type", "error", "retries"} (a pass-through observer around the real method), every size it
-    measured as {"size", "state", "type"}; an entry
-    {"cause_text_decides": True, ...} is appended for a size check whose verdict depends on the text of an
-    engine-generated Cause inside the data (the properties do not constrain that text, the comparisons mask
-    it, so the reference semantics cannot know on which side of the limit such data falls)."""
+    (`state_engine.MAX_DATA_LENGTH` — the output checks of `change_state`, `handle_terminal_state` and the
+    terminal join — and `task_dispatcher.MAX_DATA_LENGTH` — the check of a worker's reply text) is `limit`
+    characters; both constants are put back afterwards, also when the block raises.  `limit=None` keeps the value.
+    With a list `refusals`, it receives
+      * {"state", "type", "error", "retries"} for every transition `change_state` refuses (a pass-through observer
+        around the real method) and {"state", "terminal": True} for every terminal output that is over the limit;
+      * {"size", "state", "text"} for every output a size check measured (see `_ObservedLimit`);
+      * {"cause_text_decides": True, ...} for a size check whose verdict depends on the text of an engine-generated
+        Cause inside the data (the properties do not constrain that text, the comparisons mask it, so the reference
+        semantics cannot know on which side of the limit such data falls)."""
     import asl_workflow_engine.state_engine as se
     import asl_workflow_engine.task_dispatcher as td
     old = (se.MAX_DATA_LENGTH, td.MAX_DATA_LENGTH)
     real = se.StateEngine.change_state
+    lim = int(old[0]) if limit is None else limit
     if refusals is not None:
         def change_state(self, state_machine, state_type, next_state, event):
             st = event["context"]["State"]
             name, retries = st.get("Name"), st.get("RetryCount", 0)
-            data = event["data"]
-            n_real, n_masked = len(json.dumps(data)), len(json.dumps(mask_cause(data)))
-            lim = se.MAX_DATA_LENGTH
-            if next_state is not None:
-                refusals.append({"size": n_real, "state": name, "type": state_type,
-                                 "text": json.dumps(data, separators=(",", ":"))})
-                if (n_real > lim) != (n_masked > lim):
-                    refusals.append({"cause_text_decides": True, "state": name, "type": state_type})
             res = real(self, state_machine, state_type, next_state, event)
             if res[0]:
                 refusals.append({"state": name, "type": state_type, "error": res[0], "retries": retries})
             return res
         se.StateEngine.change_state = change_state
+
+        def sink(event, n_real, site):
+            data = event["data"]
+            name = ((event.get("context") or {}).get("State") or {}).get("Name")
+            n_masked = len(json.dumps(mask_cause(data)))
+            refusals.append({"size": n_real, "state": name, "text": json.dumps(data, separators=(",", ":"))})
+            if (n_real > lim) != (n_masked > lim):
+                refusals.append({"cause_text_decides": True, "state": name, "site": site})
+            if n_real > lim and site != "change_state":
+                refusals.append({"state": name, "terminal": True})
     try:
-        if limit is not None:
+        if refusals is not None:
+            se.MAX_DATA_LENGTH = _ObservedLimit(lim, sink)
+            td.MAX_DATA_LENGTH = lim
+        elif limit is not None:
             se.MAX_DATA_LENGTH = td.MAX_DATA_LENGTH = limit
         yield
     finally:
@@ -111,6 +144,7 @@ def run_case(machine, data, plans, policy="canonical", rng=None, sm_type="STANDA
     with data_limit(max_data, refusals):
         r = _run_case(machine, data, plans, policy, rng, sm_type, max_steps, instances, name, sim, monitor, logging_cfg)
     r.refusals = [x for x in refusals if "error" in x]
+    r.terminal_refusals = [x for x in refusals if x.get("terminal")]
     r.cause_text_decides = [x for x in refusals if x.get("cause_text_decides")]
     replies = [d for ents in pl_table(r).values() for (_p, reps) in ents.values() for d in reps]
     r.sizes = [x["size"] for x in refusals if "size" in x] + [len(json.dumps(d)) for d in replies]
